@@ -1,16 +1,24 @@
-"""C02 over the atom catalogue (see codec_common.py) - composites are added by codec_composite."""
+"""C02 over the atom catalogue (codec_common.py) and the nested descriptions (composite.py)."""
 from harness import codec_common as cc
+from harness import composite as cp
 
-HARNESSES = {"atom": cc.ATOM_HARNESS}
+HARNESSES = {"atom": cc.ATOM_HARNESS, "composite": cp.COMPOSITE_HARNESS}
+if "C02" == "C08":
+    HARNESSES["required"] = cp.REQUIRED_HARNESS
 STUBS = cc.STUBS
 
 
 def configs(tier, seed):
-    return cc.configs_for("C02", tier, seed)
+    return cc.configs_for("C02", tier, seed) + cp.configs_for("C02", tier, seed)
 
 
 BOUNDS = {"atoms": "bit length in {1,2,7,8,9,12,15,16,17,24,31,32,33,63,64} x bit position 0..7 x "
           "byte position {none,1,3} x byte order; BCD <= 16 (quick) / 24 (thorough) bits; integer "
           "values symbolic in [-2^(bl+2), 2^(bl+2)], W=80; byte fields: every content, lengths 0..n+1; "
-          "floats: every non-NaN binary64; strings: catalogue of 13 operands"}
-ASSUMPTIONS = ["quick tier: seeded sample of the atom product plus all boundary members"]
+          "floats: every non-NaN binary64; strings: catalogue of 13 operands; MIN-MAX-LENGTH and "
+          "LEADING-LENGTH-INFO types with byte fields (every content, lengths 0..max+1) and strings",
+          "composites": "25 nested descriptions (structures with/without BYTE-SIZE at offsets, "
+          "static / dynamic-length / end-of-pdu / end-marker fields with 0..3 items, multiplexer, "
+          "explicit and overlapping positions, constants, defaults, reserved, length key, response "
+          "with request echo), every leaf value symbolic"}
+ASSUMPTIONS = ["quick tier: seeded half of the integer atom product plus all boundary members"]
